@@ -19,7 +19,7 @@ from ..ragsim.syntax import analyse
 # runs = number of generated programs; k = compared schedules per program
 TIERS = {
     "quick": {"C06": {"runs": 30000, "k": 3}, "C10": {"runs": 30000, "k": 4}, "C19": {"runs": 30000, "k": 1}},
-    "thorough": {"C06": {"runs": 600000, "k": 8}, "C10": {"runs": 600000, "k": 10}, "C19": {"runs": 800000, "k": 2}},
+    "thorough": {"C06": {"runs": 400000, "k": 8}, "C10": {"runs": 300000, "k": 8}, "C19": {"runs": 600000, "k": 2}},
 }
 HAZARD_EVERY = 7          # C10: every 7th run is a hazard program (stale-alias stream)
 MAX_RAW_PER_CHUNK = 12
